@@ -8,7 +8,7 @@ Driver operations for the sync models (C06, C07). Core Lean only.
   sync new                                                            p2psync.New on the current store
   sync newpeer <choice> <p> <lastBlock> <candidate 0|1>               events; <choice> = observed sync peer afterwards
   sync headers <choice> <p> <idx…> | sync inv <choice> <p> <idx…> | sync done <choice> <p> | sync tick <choice> <stale 0|1>
-  xsync new | xsync start <peerHeight> | xsync headers <c> <p> <idx…> | xsync inv <c> <p> <idx…>
+  xsync new | xsync start <p> <peerHeight> | xsync headers <c> <p> <idx…> | xsync inv <c> <p> <idx…>
   sync|xsync dump | sync state
   node reply <cap> <pos> <stop|0> <loc,…> : <path idx…>                  the conformant node's answer (tree indices)
 Answer to an event: the actions, `gh <p> <stop|0> <loc,…> ; disc <p> ; ban <p> ; sendheaders <p> ; panic`.
@@ -29,8 +29,7 @@ structure S where
   table : Array (Src String) := #[]
   store : Store String := [genesisRow]
   st : Option (BHS.Sync.State String) := none
-  xst : Option (BHS.SyncExp.State String) := none
-  xnode : Nat := 0
+  xsts : List (Nat × BHS.SyncExp.State String) := []     -- one experimental peer object per connection, sharing the store
 
 def ccfg (s : S) : Chain.Cfg String := { hashOf := blockHash, forbidden := s.forbid }
 
@@ -144,28 +143,33 @@ def handle (s : S) : List String → Option (S × String)
     match s.st with
     | some st => some (s, stateStr st)
     | none => some (s, "none")
-  | ["xsync", "start", peerHeight] =>
-    match peerHeight.toInt? with
-    | some ph =>
+  | ["xsync", "start", p, peerHeight] =>
+    match p.toNat?, peerHeight.toInt? with
+    | some p, some ph =>
       let r := BHS.SyncExp.start (xcfgOf s) s.store ph 70013
-      some ({ s with xst := some r.1 }, " ; ".intercalate (r.2.map (xactStr 0)))
-    | none => some (s, "bad-args")
+      some ({ s with xsts := (s.xsts.filter (·.1 ≠ p)) ++ [(p, r.1)] }, " ; ".intercalate (r.2.map (xactStr p)))
+    | _, _ => some (s, "bad-args")
   | "xsync" :: "headers" :: _ :: p :: idxs =>
-    match s.xst, p.toNat?, lookupAll s idxs with
-    | some st, some p, some xs =>
-      let r := BHS.SyncExp.handleHeaders (xcfgOf s) st xs
-      some ({ s with xst := some r.1 }, " ; ".intercalate (r.2.map (xactStr p)))
-    | _, _, _ => some (s, "bad-args")
+    match p.toNat?, lookupAll s idxs with
+    | some p, some xs =>
+      match s.xsts.find? (·.1 = p) with
+      | some (_, st) =>
+        let r := BHS.SyncExp.handleHeaders (xcfgOf s) { st with store := s.store } xs
+        some ({ s with store := r.1.store, xsts := s.xsts.map fun e => if e.1 = p then (p, r.1) else e },
+          " ; ".intercalate (r.2.map (xactStr p)))
+      | none => some (s, "no-peer")
+    | _, _ => some (s, "bad-args")
   | "xsync" :: "inv" :: _ :: p :: idxs =>
-    match s.xst, p.toNat?, lookupAll s idxs with
-    | some st, some p, some xs =>
-      let r := BHS.SyncExp.handleInv (xcfgOf s) st (xs.map fun x => (true, blockHash x))
-      some ({ s with xst := some r.1 }, " ; ".intercalate (r.2.map (xactStr p)))
-    | _, _, _ => some (s, "bad-args")
-  | ["xsync", "dump"] =>
-    match s.xst with
-    | some st => some (s, ";".intercalate (st.store.map rowStr))
-    | none => some (s, ";".intercalate (s.store.map rowStr))
+    match p.toNat?, lookupAll s idxs with
+    | some p, some xs =>
+      match s.xsts.find? (·.1 = p) with
+      | some (_, st) =>
+        let r := BHS.SyncExp.handleInv (xcfgOf s) { st with store := s.store } (xs.map fun x => (true, blockHash x))
+        some ({ s with store := r.1.store, xsts := s.xsts.map fun e => if e.1 = p then (p, r.1) else e },
+          " ; ".intercalate (r.2.map (xactStr p)))
+      | none => some (s, "no-peer")
+    | _, _ => some (s, "bad-args")
+  | ["xsync", "dump"] => some (s, ";".intercalate (s.store.map rowStr))
   | "node" :: "reply" :: cap :: pos :: stop :: loc :: ":" :: path =>
     match cap.toNat?, pos.toNat?, lookupAll s path with
     | some cap, some pos, some chain =>
